@@ -128,7 +128,7 @@ pub fn gen_anchors(prop: &str, tier: &str, seed: u64, out: &str) -> Value {
     let op = if prop == "C06" { "anchorspin" } else { "anchors" };
     let mut rng = Rng::new(seed ^ 0xC17);
     let mut t = Trace::new(out, &format!("{}a", prop.to_lowercase()), 140);
-    let exn = match (prop, tier) { ("C17", "thorough") => 8, ("C17", _) => 6, (_, "thorough") => 6, _ => 4 };
+    let exn = match (prop, tier) { ("C17", "thorough") => 9, ("C17", _) => 6, (_, "thorough") => 6, _ => 4 };
     let mut n_exh = 0u64;
     for n in 1..=exn {
         for (o, name) in ORIENTS.iter() {
